@@ -341,7 +341,63 @@ func cmdC06(seed uint64, tier, outdir string) {
 			if u != "" {
 				emit("http-https", in.name, []byte(u), compareShifted(ref, bc.c.Match([]byte(u)), identityLine, false), "", nt)
 			}
+			// a token that mentions the scheme more than once (Markdown autolink, archived URL, comma-joined URLs):
+			// both spellings of such a text must give the same result
+			if strings.Contains(s, "http") {
+				ws := strings.Fields(s)
+				var urls []int
+				for i, w := range ws {
+					if strings.HasPrefix(w, "http://") || strings.HasPrefix(w, "https://") {
+						urls = append(urls, i)
+					}
+				}
+				if len(urls) > 0 {
+					mk := func(scheme string) []byte {
+						out := append([]string{}, strings.Split(s, " ")...)
+						for i, w := range out {
+							for _, p := range []string{"https://", "http://"} {
+								if strings.HasPrefix(w, p) && !strings.Contains(w, "\n") {
+									rest := strings.TrimRight(w[len(p):], ".,;)")
+									tail := w[len(p)+len(rest):]
+									u := scheme + "://" + rest
+									out[i] = []string{"[" + u + "](" + u + ")", scheme + "://web.archive.org/web/2020/" + u, u + "," + u}[i%3] + tail
+								}
+							}
+						}
+						return []byte(strings.Join(out, " "))
+					}
+					a, b := mk("https"), mk("http")
+					emit("http-https-twice-in-a-token", in.name, a, compareShifted(bc.c.Match(b), bc.c.Match(a), identityLine, false), "", nt)
+				}
+			}
 		}
+	}
+	// user-added documents whose words include URLs that mention the scheme more than once in one token, and
+	// listed spelling variants glued to punctuation: the input uses the other scheme / the other spelling
+	for k := 0; k < 4+n/10; k++ {
+		var dw, iw2 []string
+		for j := 0; j < 50+r.intn(50); j++ {
+			w := synthVocab[r.intn(len(synthVocab))]
+			w2 := w
+			if r.chance(1, 8) {
+				host := "example.org/" + synthVocab[r.intn(30)]
+				sa, sb := "http", "https"
+				if r.chance(1, 2) {
+					sa, sb = sb, sa
+				}
+				form := r.intn(3)
+				mk := func(sc string) string {
+					u := sc + "://" + host
+					return []string{"[" + u + "](" + u + ")", sc + "://web.archive.org/web/2020/" + u, u + "," + u}[form]
+				}
+				w, w2 = mk(sa), mk(sb)
+			}
+			dw = append(dw, w)
+			iw2 = append(iw2, w2)
+		}
+		ec := buildCorpus(0.8, []corpusDoc{{"License", "Urls", "u.txt", []byte(strings.Join(dw, " "))}})
+		a, b := []byte(strings.Join(dw, " ")), []byte(strings.Join(iw2, " "))
+		emit("http-https-in-a-user-document", "synthetic", b, compareShifted(ec.c.Match(a), ec.c.Match(b), identityLine, false), "", 1)
 	}
 	vw.close()
 	cw.close()
